@@ -1,6 +1,7 @@
 package props
 
 import (
+	"encoding/hex"
 	"fmt"
 	"strings"
 
@@ -38,6 +39,8 @@ func (c07) Gen(tier string, seed int64) []fw.Unit {
 			}
 		}
 	}
+	us = append(us, fw.U("c3993.long", nil, "very-long", 0), fw.U("c3993.long", nil, "very-long", 1))
+	us = append(us, fw.U("c3993.collide", nil, "hash-collision-pairs", 0), fw.U("c3993.collide", nil, "hash-collision-pairs", 1))
 	r := rngFor(seed, "C07")
 	n := 100
 	if tier == "thorough" {
@@ -71,6 +74,9 @@ func c3993Check(c *fw.Ctx, fam string, s string, cs, full bool) {
 	req := Req{Fam: fam, S: []byte(s), I: []int64{b2i(cs), b2i(full)}, Scheme: -1}
 	inner := req.String()
 	c.Step(func() string { return inner })
+	if c.Res().Evals%3 == 0 {
+		poison(fam, full)
+	}
 	o := req.call()
 	if !wellFormed(c, req.entryName(), inner, &o) {
 		c.Cover("outcome", "rejected")
@@ -164,6 +170,41 @@ func (p c07) Exec(c *fw.Ctx, u *fw.Unit) {
 		for i := 0; i < 43; i++ {
 			for j := 0; j < 43; j++ {
 				c3993AllMixes(c, fam, string([]byte{a, refC39[i], refC39[j]}), (i+j)%2 == 1)
+			}
+		}
+	case "c3993.collide":
+		if u.Int(0) == 1 {
+			fam = "code93"
+		}
+		for _, hp := range collideData["c39/20"] {
+			for _, h := range hp {
+				b, _ := hex.DecodeString(h)
+				c3993Check(c, fam, string(b), true, false)
+			}
+		}
+		for _, key := range []string{"lower/20", "ascii/24", "print/24"} {
+			for _, hp := range collideData[key] {
+				for _, h := range hp {
+					b, _ := hex.DecodeString(h)
+					c3993Check(c, fam, string(b), true, true)
+				}
+			}
+		}
+	case "c3993.long":
+		if u.Int(0) == 1 {
+			fam = "code93"
+		}
+		r := rngFor(c.Seed, "c3993long")
+		for _, n := range []int{61, 64, 65, 100, 127, 128, 129, 255, 256, 257, 258, 511, 512, 513, 1000, 1560, 1561, 1562, 1600, 3200, 6500} {
+			for _, ab := range [][]byte{[]byte("%"), []byte("%+/$"), []byte(refC39), []byte("0"), []byte("Z")} {
+				txt := string(randBytes(r, n, ab))
+				c3993Check(c, fam, txt, true, false)
+				c3993Check(c, fam, txt, false, false)
+			}
+			if n <= 1600 {
+				txt := string(randBytes(r, n, lowerAB))
+				c3993Check(c, fam, txt, true, true)
+				c3993Check(c, fam, string(randBytes(r, n, asciiAB)), true, true)
 			}
 		}
 	case "c3993.random":
